@@ -61,7 +61,7 @@ func runKVCase[K comparable](c *core.Ctx, kind string, d *Dom[K], keyOf func(int
 	a := newKVByKind(c, kind, d)
 	m := NewKVMon(c, a, d)
 	setup(m)
-	c.SetGaps((c.Index/8)%2 == 1)
+	c.SetGaps((c.Index/16)%2 == 1) // independent of the kind/key-type selection arithmetic
 	drv := &kvDriver[K]{c: c, m: m, keyOf: keyOf}
 	if a.GetKey != nil {
 		nv := c.R.Range(4, 8)
